@@ -41,16 +41,32 @@ const violationLimit = 24
 
 // buildCases: the full product, minus the combinations that do not exist (a module that is still
 // being instantiated cannot be closed before the call), plus the prewarmed-cache slice.
-func buildCases(shapes []shape) (cases []caseSpec, notApplicable, prewarm int) {
+// ctxQuickShapes: the shapes that run the extended context causes in the quick tier (one or two per
+// family; how a context becomes done is independent of the guest's cycle form, the watcher and the
+// up-front check are shared by all of them). Thorough runs them for every named shape.
+var ctxQuickShapes = map[string]bool{
+	"L01-br": true, "L02-br_if": true, "L14-call-body": true, "R01-direct": true, "T01-return_call-1": true,
+	"T04-return_call_indirect-self": true, "X02-import-loops": true, "X03-import-calls-local-loop": true,
+	"H01-host-enters-loop": true, "S01-start-section-loop": true, "S04-_start-export-loop": true,
+}
+
+func buildCases(shapes []shape, thorough bool) (cases []caseSpec, notApplicable, prewarm, ctxExt int) {
 	for _, sh := range shapes {
+		cs := baseCauses
+		if sh.Family != "grammar" && (thorough || ctxQuickShapes[sh.ID]) {
+			cs = causes
+		}
 		for _, e := range engines {
-			for _, c := range causes {
+			for _, c := range cs {
 				for _, m := range moments {
 					if sh.Start != "" && m < 0 && (c == "close" || c == "close7") {
 						notApplicable++
 						continue
 					}
 					cases = append(cases, caseSpec{Shape: sh.ID, Engine: e, Cause: c, Moment: m})
+					if c != "cancel" && c != "deadline" && isCtxCause(c) {
+						ctxExt++
+					}
 				}
 			}
 			// ensureTermination is part of the compiled-module identity: the same binary compiled first
@@ -70,6 +86,7 @@ type plan struct {
 	cases   []caseSpec
 	na      int
 	prewarm int
+	ctxExt  int              // cases with one of the extended context causes
 	grammar int              // grammar programs run dynamically (thorough)
 	phases  map[string][]int // phase -> indexes into cases
 	workers map[string]int
@@ -96,7 +113,7 @@ func makePlan(thorough bool) *plan {
 	for i := range p.shapes {
 		p.byID[p.shapes[i].ID] = &p.shapes[i]
 	}
-	p.cases, p.na, p.prewarm = buildCases(p.shapes)
+	p.cases, p.na, p.prewarm, p.ctxExt = buildCases(p.shapes, thorough)
 	for i, c := range p.cases {
 		sh := p.byID[c.Shape]
 		// Scheduling hints only (no influence on verdicts).
@@ -364,8 +381,8 @@ func main() {
 		fam[sh.Family]++
 	}
 	bounds := map[string]any{
-		"shapes": len(p.shapes), "shapes_per_family": fam, "engines": engines, "causes": causes, "moments": []string{"before-call", "after-iteration-1", "after-iteration-3"},
-		"product_cases": len(p.cases) - p.prewarm, "prewarmed_cache_cases": p.prewarm, "not_applicable": p.na, "grammar_programs_run_dynamically": p.grammar,
+		"shapes": len(p.shapes), "shapes_per_family": fam, "engines": engines, "causes": baseCauses, "context_causes_extended": ctxCauses, "context_cause_cases": p.ctxExt, "moments": []string{"before-call", "after-iteration-1", "after-iteration-3"},
+		"product_cases": len(p.cases) - p.prewarm - p.ctxExt, "prewarmed_cache_cases": p.prewarm, "not_applicable": p.na, "grammar_programs_run_dynamically": p.grammar,
 		"ticks_per_guest": nTicks, "hang_watchdog_s": hangAfter.Seconds(), "supervisor_fallback_watchdog_s": caseTimeout.Seconds(), "phase_wall_s": phaseWall,
 		"phase_cases": map[string]int{"tail": len(p.phases["tail"]), "deep": len(p.phases["deep"]), "main": len(p.phases["main"])},
 	}
